@@ -140,6 +140,17 @@ class Patch:
         return ov
 
 
+class Metamorph:
+    """a whole-tree mechanical rewrite (jfsa/metamorph.py) as a behaviour-preserving twin"""
+
+    def __init__(self, variant: str) -> None:
+        self.name, self.variant, self.file, self.expect = f"metamorphic {variant}", variant, "jellyfysh/**/*.py", None
+
+    def overlay(self, base: Source) -> Optional[Dict[str, str]]:
+        from . import metamorph
+        return metamorph.variant_overlay(base, self.variant) or None
+
+
 def _one(args) -> Dict[str, Any]:
     pid, repo, kind, edit, baseline = args
     from . import cli
@@ -186,6 +197,10 @@ def run(pid: str, mod, repo: str, seed: int, jobs: int) -> Dict[str, Any]:
         pt = Patch("refactoring " + os.path.basename(path)[:-5], os.path.relpath(path, VERIF_DIR))
         if any(f in src.files_read for f in pt.files()):
             twins.append(pt)
+    # whole-tree metamorphic variants (flip every if, guard clauses <-> else, rename all locals, ...)
+    if any(f.endswith(".py") for f in src.files_read):
+        from . import metamorph
+        twins.extend(Metamorph(v) for v in metamorph.TRANSFORMS)
     tasks = [(pid, repo, "mutant", e, baseline) for e in mutants] + [(pid, repo, "twin", e, baseline) for e in twins]
     random.Random(seed).shuffle(tasks)
     if not tasks:
